@@ -152,8 +152,14 @@ func deadAddr() (string, int) {
 	return fmt.Sprintf("127.0.0.1:%d", sa.(*syscall.SockaddrInet4).Port), fd
 }
 
-func newRig(t ev.TB, part string, su Setup) (*rig, error) {
-	r := &rig{t: t, part: part, su: su, hold: make(chan struct{}), sampleStop: make(chan struct{})}
+func newRig(t ev.TB, part string, su Setup) (r *rig, err error) {
+	r = &rig{t: t, part: part, su: su, hold: make(chan struct{}), sampleStop: make(chan struct{})}
+	defer func() { // the machine can run out of loopback ports (mesh.NewUpstream / FreePort panic): infrastructure, not a verdict
+		if x := recover(); x != nil {
+			r.close()
+			r, err = nil, fmt.Errorf("rig panic: %v", x)
+		}
+	}()
 	for _, k := range su.Hosts {
 		switch k {
 		case "dead":
@@ -242,6 +248,11 @@ func (r *rig) curHold() chan struct{} {
 func (r *rig) close() {
 	r.release()
 	r.stopSampler()
+	for _, u := range r.ups { // RST: no TIME_WAIT sockets pile up on the shared machine
+		if u != nil {
+			u.KillConns(true)
+		}
+	}
 	if r.c != nil {
 		r.c.Close()
 	}
